@@ -88,6 +88,8 @@ U_C06(zz) ==
     \* context-sensitive regexes: what precedes the search buffer must not matter
     \cup {DataDecl(md, w, {81, 90, 1}, 5) : md \in RegexModes("QnotZ"), w \in {-1, 2, 3}}
     \cup {DataDecl(md, w, {88, 1}, 5) : md \in RegexModes("caretX"), w \in {-1, 2}}
+    \* a regex without any metacharacter, compiled with a FLAG (ignore case)
+    \cup {DataDecl(md, w, {88, 120, 1}, 5) : md \in RegexModes("xI"), w \in {-1, 2}}
     \* the delimited field first, so that what precedes it is not part of the packet
     \cup {DeclO(DefaultOpts, <<DataF("d", md), U1("post")>>, {81, 90, 1}, 4) : md \in RegexModes("QnotZ")}
     \cup {DeclO(DefaultOpts, <<DataF("d", md), U1("post")>>, {88, 1}, 4) : md \in RegexModes("caretX") \cup RegexModes("Xplus")}
